@@ -307,6 +307,29 @@ fn main() {
     let mut report_items: Vec<serde_json::Value> = Vec::new();
     let mut rewrite_counts: BTreeMap<String, usize> = BTreeMap::new();
     let mut includes: Vec<String> = Vec::new();
+    // R5 side condition: every function in client/src/logging/*.rs only invokes tracing macros
+    let mut logging_ok = true;
+    if let Ok(rd) = std::fs::read_dir(format!("{repo}/client/src/logging")) {
+        for e in rd.flatten() {
+            if let Ok(txt) = std::fs::read_to_string(e.path()) {
+                if let Ok(f) = parse_file(&txt) {
+                    for it in &f.items {
+                        if let Item::Fn(func) = it {
+                            for st in &func.block.stmts {
+                                let ok = matches!(st, Stmt::Macro(m) if m.mac.path.segments.first().map_or(false, |s| s.ident == "tracing"));
+                                if !ok {
+                                    logging_ok = false;
+                                }
+                            }
+                        }
+                    }
+                }
+            }
+        }
+    }
+    if !logging_ok {
+        noop_logging_violation();
+    }
     // no-op trait methods (R7b): every impl of the method in protocol/src/traits.rs has an empty body
     let mut noop: HashSet<String> = HashSet::new();
     {
@@ -386,6 +409,9 @@ fn main() {
             let (f, r) = rest.split_once(" :: ").unwrap_or_else(|| die("bad //@rename"));
             let (a, b) = r.split_once("=>").unwrap_or_else(|| die("bad //@rename"));
             file_renames.entry(f.trim().to_string()).or_default().push((norm(a), b.trim().to_string()));
+            i += 1;
+        } else if t.starts_with("//@tryexpand") {
+            method_maps.push(("flag:tryexpand".to_string(), String::new()));
             i += 1;
         } else if let Some(rest) = t.strip_prefix("//@mapcall ") {
             // R8 for methods of std types: `recv.m(args)` -> `f(recv, args)` (a prelude function carrying the assumed contract)
@@ -529,8 +555,15 @@ fn main() {
                             let vn = v.ident.to_string();
                             from_impls.push(format!("impl vstd::std_specs::convert::FromSpecImpl<{ty}> for {e} {{ open spec fn obeys_from_spec() -> bool {{ true }} open spec fn from_spec(e: {ty}) -> {e} {{ {e}::{vn}(e) }} }} // R23"));
                             from_impls.push(format!("impl From<{ty}> for {e} {{ fn from(e: {ty}) -> {e} {{ {e}::{vn}(e) }} }} // R23"));
+                            from_impls.push(format!("impl VConv<{e}> for {ty} {{ open spec fn conv_spec(self) -> {e} {{ {e}::{vn}(self) }} fn conv(self) -> (r: {e}) {{ {e}::{vn}(self) }} }} // R29 support"));
                         }
                     }
+                }
+            }
+            if let Item::Enum(en) = &it {
+                if opts.contains_key("from") {
+                    let e = en.ident.to_string();
+                    from_impls.push(format!("impl VConv<{e}> for {e} {{ open spec fn conv_spec(self) -> {e} {{ self }} fn conv(self) -> (r: {e}) {{ self }} }} // R29 support: the identity conversion of `?`"));
                 }
             }
             match &mut it {
@@ -816,6 +849,11 @@ fn expr_has_call(e: &Expr) -> bool {
     s.contains('(') && !matches!(e, Expr::Paren(_) | Expr::Binary(_)) || s.contains("size_of")
 }
 
+fn noop_logging_violation() {
+    // recorded, and turned into exit 2 only if a unit actually drops a logging call (checked by the driver via the log)
+    std::env::set_var("VX_LOGGING_NOT_PURE", "1");
+}
+
 fn has_derive(attrs: &[Attribute], name: &str) -> bool {
     attrs.iter().any(|a| a.path().is_ident("derive") && a.meta.to_token_stream().to_string().contains(name))
 }
@@ -866,6 +904,7 @@ fn emit_fn(
     let mut rw = Rw::new(maps, method_maps);
     rw.noop_methods = noop.clone();
     rw.guards = d.guards.iter().cloned().collect();
+    rw.try_expand = method_maps.iter().any(|(k, _)| k == "flag:tryexpand");
     rw.retain_captures = d.retain_captures.clone();
     rw.fn_name = d.rename.clone().unwrap_or_else(|| d.name.clone());
     let mut impl_header = String::new();
@@ -1077,6 +1116,9 @@ fn emit_fn(
     }
     for (k, st) in prologue.into_iter().enumerate() {
         block.stmts.insert(k, st);
+    }
+    if std::env::var("VX_LOGGING_NOT_PURE").is_ok() && rw.log.iter().any(|l| l.contains("logging::")) {
+        rw.unsupported.push("a client/src/logging function does more than invoke tracing macros: R5 does not apply".into());
     }
     if !rw.unsupported.is_empty() {
         die(&format!("{} :: {} :: {}: {}", d.file, d.selector, d.name, rw.unsupported.join("; ")));
